@@ -23,6 +23,7 @@ package main
 // (the verdict must not depend on scheduling; steps are planned >= 1 s away).
 
 import (
+	"bufio"
 	"bytes"
 	"context"
 	"crypto/ecdsa"
@@ -49,12 +50,14 @@ import (
 	"github.com/scionproto/scion/pkg/addr"
 	"github.com/scionproto/scion/pkg/slayers"
 	"github.com/scionproto/scion/pkg/slayers/path/empty"
+	spath "github.com/scionproto/scion/pkg/snet/path"
 
 	"example.com/scion-time/core/server"
 	"example.com/scion-time/core/timebase"
 	"example.com/scion-time/net/ntp"
 	"example.com/scion-time/net/nts"
 	"example.com/scion-time/net/ntske"
+	"example.com/scion-time/net/scion"
 	"example.com/scion-time/net/udp"
 
 	"verifharness/lib"
@@ -297,8 +300,11 @@ func (l *lsnSock) probe(pkt []byte) (replies [][]byte, ok bool) {
 type lsnStep struct {
 	req  bool
 	t    int64 // planned virtual time
-	lsn  int   // request: listener kind + 2 * client socket; key exchange: 0 = TLS, 1 = QUIC over SCION
-	c    int
+	lsn  int   // request: listener kind + 2 * client socket; key exchange: 0 = TLS, 1 = QUIC over SCION,
+	//            2 / 3 / 4 = TLS / QUIC / TLS by a scripted client that completes the handshake at t and
+	//            sends (the rest of) its request only after the provider has aged by delay
+	c     int
+	delay int64
 }
 
 type lsnObs struct {
@@ -401,6 +407,105 @@ func (e *lsnEnv) keyExchange(quic bool) (o lsnObs) {
 	return o
 }
 
+// slowKeyExchange: a client that connects, completes the handshake, and takes its time
+// (the provider ages by delay meanwhile) before it sends its request; the cookies are
+// handed out when the server answers, which is the instant the observation is about.
+func (e *lsnEnv) slowKeyExchange(quic bool, pre int, delay int64) (o lsnObs) {
+	cfg := &tls.Config{RootCAs: e.pool, ServerName: e.ip.String(), NextProtos: []string{"ntske/1"}, MinVersion: tls.VersionTLS13}
+	var msg ntske.ExchangeMsg
+	msg.AddRecord(ntske.NextProto{NextProto: ntske.NTPv4})
+	msg.AddRecord(ntske.Algorithm{Algo: []uint16{ntske.AES_SIV_CMAC_256}})
+	msg.AddRecord(ntske.End{})
+	buf, err := msg.Pack()
+	if err != nil {
+		panic(err)
+	}
+	// pre: how many bytes of the request go out before the pause (a slow sender; over QUIC the
+	// server does not even see the stream before its first byte)
+	req := buf.Bytes()
+	if pre > len(req)-1 {
+		pre = len(req) - 1
+	}
+	var data ntske.Data
+	ctx, cancel := context.WithTimeout(context.Background(), 30*time.Second)
+	defer cancel()
+	wait := func() {
+		time.Sleep(30 * time.Millisecond) // the server's side of the handshake has finished too
+		e.ageTo(e.vnow() + delay)
+	}
+	if !quic {
+		conn, err := tls.DialWithDialer(&net.Dialer{Timeout: 10 * time.Second}, "tcp",
+			net.JoinHostPort(e.ip.String(), strconv.Itoa(ntske.ServerPortIP)), cfg)
+		if err != nil {
+			o.lo, o.hi = e.vnow(), e.vnow()
+			return o
+		}
+		defer conn.Close()
+		conn.SetDeadline(time.Now().Add(25 * time.Second))
+		if pre > 0 {
+			if _, err = conn.Write(req[:pre]); err != nil {
+				o.lo, o.hi = e.vnow(), e.vnow()
+				return o
+			}
+		}
+		wait()
+		o.lo = e.vnow()
+		_, err = conn.Write(req[pre:])
+		if err == nil {
+			err = ntske.ReadData(ctx, e.log, bufio.NewReader(conn), &data)
+		}
+		o.hi = e.vnow()
+		if err == nil {
+			err = ntske.ExportKeys(conn.ConnectionState(), &data)
+		}
+		if err != nil {
+			return o
+		}
+	} else {
+		local := udp.UDPAddr{IA: lsnIA, Host: &net.UDPAddr{IP: e.ip}}
+		remote := udp.UDPAddr{IA: lsnIA, Host: &net.UDPAddr{IP: e.ip, Port: ntske.ServerPortSCION}}
+		sp := spath.Path{Src: lsnIA, Dst: lsnIA, DataplanePath: spath.Empty{}, NextHop: remote.Host}
+		conn, err := scion.DialQUIC(ctx, local, remote, sp, "" /* host */, cfg, nil)
+		if err != nil {
+			o.lo, o.hi = e.vnow(), e.vnow()
+			return o
+		}
+		defer conn.CloseWithError(0, "")
+		if pre == 0 {
+			pre = 5
+		}
+		stream, err := conn.OpenStream()
+		if err == nil {
+			stream.SetDeadline(time.Now().Add(25 * time.Second))
+			_, err = stream.Write(req[:pre])
+		}
+		if err != nil {
+			o.lo, o.hi = e.vnow(), e.vnow()
+			return o
+		}
+		wait()
+		o.lo = e.vnow()
+		{
+			_, err = stream.Write(req[pre:])
+			if err == nil {
+				err = ntske.ReadData(ctx, e.log, bufio.NewReader(stream), &data)
+			}
+			stream.Close()
+		}
+		o.hi = e.vnow()
+		if err == nil {
+			err = ntske.ExportKeys(conn.ConnectionState().TLS, &data)
+		}
+		if err != nil {
+			return o
+		}
+	}
+	if len(data.Cookie) > 0 {
+		o.ans, o.cs, o.sess = 1, data.Cookie, &lsnSession{c2s: data.C2sKey, s2c: data.S2cKey}
+	}
+	return o
+}
+
 // request sends one NTS request with cookie c through its socket; lo/hi are set by the caller.
 func (e *lsnEnv) request(st lsnStep) (o lsnObs) {
 	ck := e.cookies[st.c]
@@ -445,7 +550,15 @@ func (e *lsnEnv) doSteps(sts []lsnStep) []lsnObs {
 	e.ageTo(sts[0].t)
 	obs := make([]lsnObs, len(sts))
 	if !sts[0].req {
-		obs[0] = e.keyExchange(sts[0].lsn == 1 && e.quic)
+		if sts[0].lsn >= 2 {
+			pre := 0
+			if sts[0].lsn >= 3 {
+				pre = 5 + int(sts[0].delay%7)
+			}
+			obs[0] = e.slowKeyExchange(sts[0].lsn == 3 && e.quic, pre, sts[0].delay)
+		} else {
+			obs[0] = e.keyExchange(sts[0].lsn == 1 && e.quic)
+		}
 	} else {
 		lo := e.vnow()
 		var wg sync.WaitGroup
@@ -600,7 +713,19 @@ func (g *lsnGen) next() []lsnStep {
 				}
 			}
 			return []lsnStep{st}
-		case mode < 58: // another client's key exchange, over TLS or over QUIC/SCION
+		case mode < 54: // a slow client: handshake now, its request only after the provider has aged
+			st.lsn = 2 + r.Intn(3) // 2: TLS, silent until then; 3: QUIC, 4: TLS, the first bytes of the request sent before
+			st.t = now + lib.Pick(r, r.Range(sec, hour), r.Range(hour, 20*hour))
+			st.delay = lib.Pick(r, 2*sec, r.Range(sec, hour), 30*hour, 30*hour, 73*hour, r.Range(hour, 80*hour))
+			if r.Intn(3) == 0 { // its answer one second before / after the renewal of the newest key
+				if d := e.keys[e.maxID] + renewal + lib.Pick(r, -sec, sec) - st.t; d > sec {
+					st.delay = d
+				}
+			}
+			if !g.clear(st.t+st.delay, -1) {
+				continue
+			}
+		case mode < 60: // another client's key exchange, over TLS or over QUIC/SCION
 			st.lsn = r.Intn(2)
 			st.t = now + lib.Pick(r, r.Range(sec, hour), r.Range(hour, 30*hour))
 		case mode < 70 && len(e.cookies) >= 2: // a burst: several requests at once, each through its own socket
@@ -666,6 +791,9 @@ func lsnChild(seed uint64, nsteps int, script string) {
 				st = lsnStep{t: n.i(1)}
 				if len(n.list) > 2 {
 					st.lsn = int(n.i(2))
+				}
+				if len(n.list) > 3 {
+					st.delay = n.i(3)
 				}
 			} else {
 				st = lsnStep{req: true, t: n.i(1), lsn: int(n.i(2)), c: int(n.i(3))}
@@ -739,6 +867,11 @@ func lsnChild(seed uint64, nsteps int, script string) {
 				if d := o.lo - (cks[j].issue + twoDays); d > -2*sec && d < 2*sec {
 					tags["b48"] = true
 				}
+			} else if st.lsn >= 2 {
+				tags["keslow"] = true
+				if st.delay > renewal {
+					tags["keslow24"] = true
+				}
 			} else if st.lsn == 1 && e.quic {
 				tags["kequic"] = true
 			} else {
@@ -761,7 +894,7 @@ func lsnChild(seed uint64, nsteps int, script string) {
 		if st.req {
 			as[i] = lib.L(lib.V("1", lib.I(st.t), lib.I(int64(st.lsn)), lib.I(int64(st.c))))
 		} else {
-			as[i] = lib.L(lib.V("0", lib.I(st.t), lib.I(int64(st.lsn))))
+			as[i] = lib.L(lib.V("0", lib.I(st.t), lib.I(int64(st.lsn)), lib.I(st.delay)))
 		}
 		ids := make([]string, len(obs[i].ids))
 		for j, id := range obs[i].ids {
